@@ -18,6 +18,7 @@ EXPLANATION = (
     "Also decided: the requested name cannot resolve to the proxy's own attributes; the cached name server proxy is validated; blank query values are kept; the reply body is bytes; the raw wire response is requested and honoured. "
     'Also decided (round 7): The presented key is compared with the configured one by equality; SQL the sqlite storage uses to answer a regex listing is held to the same literal-matching rule as the anchored pattern check. '
     "Not decided: HTTP parsing by wsgiref/urllib, what the operator's regex matches, JSON content."
+    'Also decided (round 9): The forwarding proxy is constructed for the request. '
 )
 
 GW = "Pyro5.utils.httpgateway"
